@@ -43,7 +43,7 @@ func deepInstrsScope(root *ssa.Function, depth int, prune func(*ssa.Function) bo
 	var walk func(fn *ssa.Function, site ssa.Instruction, chain []*ssa.Call, seen map[*ssa.Function]bool, d int)
 	walk = func(fn *ssa.Function, site ssa.Instruction, chain []*ssa.Call, seen map[*ssa.Function]bool, d int) {
 		for _, b := range fn.Blocks {
-			if (activeSpec != nil || len(activeCellFlags) > 0) && specDead(b) {
+			if (activeSpec != nil || len(activeCellFlags) > 0 || len(activeParamFlags) > 0) && specDead(b) {
 				continue
 			}
 			for _, in := range b.Instrs {
